@@ -216,6 +216,7 @@ func (dbc *DatabaseContext) UpdatePrincipal(ctx context.Context, updates *auth.P
 			}
 		}
 		princ.SetUpdatedAt()
+		casBeforeSave := princ.Cas()
 		err = authenticator.Save(princ)
 		// On cas error, retry.  Otherwise break out of loop
 		if base.IsCasMismatch(err) {
@@ -225,6 +226,14 @@ func (dbc *DatabaseContext) UpdatePrincipal(ctx context.Context, updates *auth.P
 				base.InfofCtx(ctx, base.KeyAuth, "Error releasing unused sequence %d after CAS retry for principal %s: %v", nextSeq, base.UD(princ.Name()), err)
 			}
 		} else {
+			// If the save failed before the principal was written (cas unchanged), release the sequence number allocated for
+			// it to avoid an abandoned sequence. For timeout errors the write may or may not have succeeded, so the
+			// sequence cannot be released as unused.
+			if err != nil && !base.IsTimeoutError(err) && princ.Cas() == casBeforeSave {
+				if seqErr := dbc.sequences.releaseSequence(ctx, nextSeq); seqErr != nil {
+					base.InfofCtx(ctx, base.KeyAuth, "Error releasing unused sequence %d after failed update of principal %s: %v", nextSeq, base.UD(princ.Name()), seqErr)
+				}
+			}
 			return replaced, princ, err
 		}
 	}
